@@ -292,10 +292,10 @@ Proof.
   f_equal. apply (fromkeys_fold ns []).
 Qed.
 
-(* the hypothesis is needed: the Sets copy builds the networks with Span.net_of_tuple, which has no version check
-   (its callers pass the version of a live object), the Order copy with the full constructor.  Real netaddr:
-   IPSet().__setstate__(((1, 32, 5),)) raises ValueError('5 is an invalid IP version!') — the Order copy is right. *)
-Example coh_ipset_setstate_invalid_version_differs :
+(* an invalid version field: both copies raise ValueError, as the real code does
+   (IPSet().__setstate__(((1, 32, 5),)) raises ValueError('5 is an invalid IP version!')).  The Sets copy lacked the
+   version check until this coherence work found the disagreement; Model/Sets.v was corrected. *)
+Example coh_ipset_setstate_invalid_version :
   Order.ipset_setstate (map state3 [(1, 32, 5)]) = Raise ValueError /\
-  Sets.set_setstate [(1, 32, 5)] = Ok [{| nver := 5; nval := 1; nplen := 32 |}].
+  Sets.set_setstate [(1, 32, 5)] = Raise ValueError.
 Proof. split; vm_compute; reflexivity. Qed.
